@@ -1,6 +1,7 @@
 import NomtModel.Store.WalkerSimMoves
 import NomtModel.Store.WalkerSim
 import NomtModel.Store.WalkerGSim
+import NomtModel.Store.WalkerTreeWrites
 /-!
 # `handle_elision_threshold`, `up`, `down` of the mirror against the tree walker
 -/
@@ -29,25 +30,32 @@ theorem pushUpdated_outs (w0 w1 : Walker Node) (sp sp2 : StackPage Node) (hout :
     · exact hdf i hi
     · exact totalDiff_changed sp2 i (hdf i hi)
 
-/-- the parent's counter update: it succeeds, or the one guard traps -/
-theorem elideParentCounter_cases (sp parent : StackPage Node) (plc clc : Nat)
-    (hsp : sp.prevChildrenLeaves.isSome = true) (hcp : CountersOK parent) :
-    (∃ parent2, elideParentCounter sp parent plc clc = .ok parent2 ∧ parent2.pageId = parent.pageId ∧
-      parent2.page = parent.page ∧ CountersOK parent2 ∧ parent2.diff = parent.diff) ∨
-    elideParentCounter sp parent plc clc = .panic GUARD := by
+/-- the parent's counter update: the guard `new_parent_children_leaves_counter ≥ 0` holds when the parent's counter covers
+the weight the page had when it was loaded -/
+theorem elideParentCounter_ok (sp parent : StackPage Node) (plc clc : Nat)
+    (hsp : sp.prevChildrenLeaves.isSome = true) (hcp : CountersOK parent)
+    (hg : ∀ pclc pc, parent.childrenLeaves.or parent.prevChildrenLeaves = some pclc → sp.prevChildrenLeaves = some pc →
+      sp.pageLeaves.getD 0 + pc ≤ pclc) :
+    ∃ parent2, elideParentCounter sp parent plc clc = .ok parent2 ∧ parent2.pageId = parent.pageId ∧
+      parent2.page = parent.page ∧ CountersOK parent2 ∧ parent2.diff = parent.diff ∧
+      parent2.prevChildrenLeaves = parent.prevChildrenLeaves ∧ parent2.pageLeaves = parent.pageLeaves ∧
+      (parent.childrenLeaves.or parent.prevChildrenLeaves = none → parent2.childrenLeaves = parent.childrenLeaves) ∧
+      (∀ pclc pc, parent.childrenLeaves.or parent.prevChildrenLeaves = some pclc → sp.prevChildrenLeaves = some pc →
+        parent2.childrenLeaves = some (pclc - (sp.pageLeaves.getD 0 + pc) + plc + clc)) := by
   unfold elideParentCounter
   cases hpo : parent.childrenLeaves.or parent.prevChildrenLeaves with
-  | none => exact Or.inl ⟨parent, rfl, rfl, rfl, hcp, rfl⟩
+  | none => exact ⟨parent, rfl, rfl, rfl, hcp, rfl, rfl, rfl, fun _ => rfl, fun _ _ h => by cases h⟩
   | some pclc =>
     simp only
     cases hpv : sp.prevChildrenLeaves with
     | none => rw [hpv] at hsp; cases hsp
     | some prevClc =>
       simp only
-      split
-      · exact Or.inr rfl
-      · refine Or.inl ⟨_, rfl, rfl, rfl, ?_, rfl⟩
-        intro _
+      have hgu := hg pclc prevClc hpo hpv
+      generalize sp.pageLeaves.getD 0 = prevPlc at hgu ⊢
+      rw [if_neg (by omega)]
+      refine ⟨_, rfl, rfl, rfl, ?_, rfl, rfl, rfl, (fun h => by cases h), ?_⟩
+      · intro _
         show parent.prevChildrenLeaves.isSome = true
         cases hpp : parent.prevChildrenLeaves with
         | some x => rfl
@@ -59,38 +67,50 @@ theorem elideParentCounter_cases (sp parent : StackPage Node) (plc clc : Nat)
             | some y => rfl
           have := hcp this
           rw [hpp] at this; cases this
+      · intro pclc' pc' h1 h2
+        injection h1 with h1
+        injection h2 with h2
+        subst h1; subst h2
+        show some (Int.toNat _) = some _
+        congr 1
+        omega
 
 /-- the effect of `handle_elision_threshold` on the stack: the top page is popped; of the pages below only the counters and
-the bitfield of the next one may change — or the guard of the counter arithmetic traps -/
-theorem handleElision_spec (w : Walker Node) (sp : StackPage Node) (below : List (StackPage Node))
+the bitfield of the next one may change.  The guard of the counter arithmetic holds by the accounting (`Acct`). -/
+theorem handleElision_spec (ps : PageSet Node) (ids : List PageId)
+    (w : Walker Node) (sp : StackPage Node) (below : List (StackPage Node))
     (hst : w.stack = sp :: below) (hrec : w.reconstruction = false)
-    (hc : ∀ x ∈ w.stack, CountersOK x) (hne : below ≠ [] → sp.pageId ≠ []) :
-    (∃ w', w.handleElision H = .ok w' ∧ Same w w' ∧ w'.position = w.position ∧ w'.root = w.root ∧
+    (hc : ∀ x ∈ w.stack, CountersOK x) (hne : below ≠ [] → sp.pageId ≠ [])
+    (hac : ∀ x ∈ w.stack, Acct ps ids x)
+    (hchild : ∀ parent rest, below = parent :: rest → ∃ ci, ci < 64 ∧ sp.pageId = parent.pageId ++ [ci])
+    (hnew : sp.pageId ∉ ids) :
+    ∃ w', w.handleElision H = .ok w' ∧ Same w w' ∧ w'.position = w.position ∧ w'.root = w.root ∧
       w'.childPageRoots = w.childPageRoots ∧
       (∀ o ∈ w'.outputPages, o ∈ w.outputPages ∨
         ∃ pg d b, pg.nodes = sp.page.nodes ∧ o = .updated sp.pageId pg d b ∧
           ∀ i, sp.diff.changed i = true → d.changed i = true) ∧
+      (w'.outputPages = w.outputPages ∨ ∃ o, w'.outputPages = w.outputPages ++ [o] ∧ o.pageId = sp.pageId) ∧
       ((below = [] ∧ w'.stack = []) ∨
        (∃ parent rest parent', below = parent :: rest ∧ w'.stack = parent' :: rest ∧
           parent'.pageId = parent.pageId ∧ parent'.page = parent.page ∧ CountersOK parent' ∧
-          parent'.diff = parent.diff))) ∨
-    w.handleElision H = .panic GUARD := by
+          parent'.diff = parent.diff ∧ Acct ps (ids ++ [sp.pageId]) parent')) := by
   unfold Walker.handleElision
   rw [hst]
   simp only
   obtain ⟨hid, hcl, hpcl, hpl⟩ := storeElided_fields sp
   have hcsp : CountersOK sp := hc sp (by rw [hst]; simp)
-  have hnone : CountersOK ({ sp with childrenLeaves := none, prevChildrenLeaves := none } : StackPage Node) := by
-    intro h; cases h
+  have hacsp : Acct ps ids sp := hac sp (by rw [hst]; simp)
+  have hsub : ∀ i ∈ ids, i ∈ ids ++ [sp.pageId] := fun i hi => List.mem_append_left _ hi
   cases below with
   | nil =>
     simp only
     rw [pushOut_ok _ _ (by exact hrec)]
-    exact Or.inl ⟨_, rfl, Same.rfl' _, rfl, rfl, rfl,
-      pushUpdated_outs w _ sp _ rfl hid (storeElided_nodes sp) (by intro i hi; rw [storeElided_diff]; exact hi), Or.inl ⟨trivial, rfl⟩⟩
+    exact ⟨_, rfl, Same.rfl' _, rfl, rfl, rfl,
+      pushUpdated_outs w _ sp _ rfl hid (storeElided_nodes sp) (by intro i hi; rw [storeElided_diff]; exact hi), Or.inr ⟨_, rfl, hid⟩, Or.inl ⟨trivial, rfl⟩⟩
   | cons parent rest =>
     simp only
     have hcp : CountersOK parent := hc parent (by rw [hst]; simp)
+    have hacp : Acct ps ids parent := hac parent (by rw [hst]; simp)
     have hspne : (storeElided sp).pageId ≠ [] := by rw [hid]; exact hne (by simp)
     obtain ⟨ci, hci⟩ := childIndexAtLevel_last (storeElided sp).pageId hspne
     have hkeep : ∃ w', keepPage ({ w with stack := parent :: rest } : Walker Node) (storeElided sp) parent rest = .ok w' ∧
@@ -98,25 +118,32 @@ theorem handleElision_spec (w : Walker Node) (sp : StackPage Node) (below : List
         (∀ o ∈ w'.outputPages, o ∈ w.outputPages ∨
           ∃ pg d b, pg.nodes = sp.page.nodes ∧ o = .updated sp.pageId pg d b ∧
             ∀ i, sp.diff.changed i = true → d.changed i = true) ∧
+        (w'.outputPages = w.outputPages ∨ ∃ o, w'.outputPages = w.outputPages ++ [o] ∧ o.pageId = sp.pageId) ∧
         ∃ parent', w'.stack = parent' :: rest ∧ parent'.pageId = parent.pageId ∧ parent'.page = parent.page ∧
-          CountersOK parent' ∧ parent'.diff = parent.diff := by
+          CountersOK parent' ∧ parent'.diff = parent.diff ∧ Acct ps (ids ++ [sp.pageId]) parent' := by
       unfold keepPage
       rw [hci]
       simp only
       rw [pushOut_ok _ _ (by exact hrec)]
       refine ⟨_, rfl, Same.rfl' _, rfl, rfl, rfl, pushUpdated_outs w _ sp _ rfl hid (storeElided_nodes sp) (by intro i hi; rw [storeElided_diff]; exact hi),
-        _, rfl, rfl, rfl, ?_, rfl⟩
-      intro h; cases h
+        Or.inr ⟨_, rfl, hid⟩, _, rfl, rfl, rfl, ?_, rfl, ?_⟩
+      · intro h; cases h
+      · refine acct_kept (hacp.mono hsub) rfl ?_ rfl rfl
+        show (if w.mutStalePrev = true then parent.prevChildrenLeaves else none) = parent.prevChildrenLeaves ∨
+          (if w.mutStalePrev = true then parent.prevChildrenLeaves else none) = none
+        split
+        · exact Or.inl rfl
+        · exact Or.inr rfl
     by_cases hroot : parentPageId (storeElided sp).pageId = []
     · rw [if_pos hroot, pushOut_ok _ _ (by exact hrec)]
-      exact Or.inl ⟨_, rfl, Same.rfl' _, rfl, rfl, rfl, pushUpdated_outs w _ sp _ rfl hid (storeElided_nodes sp) (by intro i hi; rw [storeElided_diff]; exact hi),
-        Or.inr ⟨parent, rest, parent, rfl, rfl, rfl, rfl, hcp, rfl⟩⟩
+      exact ⟨_, rfl, Same.rfl' _, rfl, rfl, rfl, pushUpdated_outs w _ sp _ rfl hid (storeElided_nodes sp) (by intro i hi; rw [storeElided_diff]; exact hi),
+        Or.inr ⟨_, rfl, hid⟩, Or.inr ⟨parent, rest, parent, rfl, rfl, rfl, rfl, hcp, rfl, hacp.mono hsub⟩⟩
     · rw [if_neg hroot]
       cases hor : (storeElided sp).childrenLeaves.or (storeElided sp).prevChildrenLeaves with
       | none =>
         simp only
-        obtain ⟨w', h1, h2, h3, h4, h5, ho, p', h6, h7, h8, h9, h10⟩ := hkeep
-        exact Or.inl ⟨w', h1, h2, h3, h4, h5, ho, Or.inr ⟨parent, rest, p', rfl, h6, h7, h8, h9, h10⟩⟩
+        obtain ⟨w', h1, h2, h3, h4, h5, ho, hsh, p', h6, h7, h8, h9, h10, h11⟩ := hkeep
+        exact ⟨w', h1, h2, h3, h4, h5, ho, hsh, Or.inr ⟨parent, rest, p', rfl, h6, h7, h8, h9, h10, h11⟩⟩
       | some clc =>
         simp only
         split
@@ -133,27 +160,71 @@ theorem handleElision_spec (w : Walker Node) (sp : StackPage Node) (below : List
                 | some y => rfl
               have := hcsp this
               rw [hpv] at this; cases this
-          rcases elideParentCounter_cases (storeElided sp) parent (countLeaves H (storeElided sp).page) clc hsp2 hcp with
-            ⟨parent2, hp2, hp2id, hp2pg, hp2c, hp2d⟩ | hpanic
-          · unfold elidePage
-            rw [hp2]
-            simp only
-            rw [hci]
-            simp only
-            rw [hrec]
-            simp only [Bool.false_eq_true, if_false]
-            have hc3 : CountersOK ({ parent2 with elided := PageLayout.elidedSet parent2.elided ci true } : StackPage Node) := hp2c
-            split
-            · exact Or.inl ⟨_, rfl, ⟨rfl, rfl, rfl, rfl, hrec.symm⟩, rfl, rfl, rfl,
-                pushUpdated_outs w _ sp _ rfl hid (storeElided_nodes sp) (by intro i hi; show ((storeElided sp).diff.setCleared).changed i = true; rw [PageDiff.changed_setCleared, storeElided_diff, hi]; rfl),
-                Or.inr ⟨parent, rest, _, rfl, rfl, hp2id, hp2pg, hc3, hp2d⟩⟩
-            · exact Or.inl ⟨_, rfl, ⟨rfl, rfl, rfl, rfl, hrec.symm⟩, rfl, rfl, rfl, fun o ho => Or.inl ho,
-                Or.inr ⟨parent, rest, _, rfl, rfl, hp2id, hp2pg, hc3, hp2d⟩⟩
-          · right
-            unfold elidePage
-            rw [hpanic]
-        · obtain ⟨w', h1, h2, h3, h4, h5, ho, p', h6, h7, h8, h9, h10⟩ := hkeep
-          exact Or.inl ⟨w', h1, h2, h3, h4, h5, ho, Or.inr ⟨parent, rest, p', rfl, h6, h7, h8, h9, h10⟩⟩
+          obtain ⟨cix, hcix, hspid⟩ := hchild parent rest rfl
+          have hnot : parent.pageId ++ [cix] ∉ ids := by rw [← hspid]; exact hnew
+          have hle1 := oldTot_le_restSum ps ids parent.pageId cix hcix hnot
+          have hleave := restSum_leave ps ids parent.pageId cix hcix hnot
+          have hold : ∀ pc, sp.prevChildrenLeaves = some pc →
+              sp.pageLeaves.getD 0 + pc ≤ oldTot ps (parent.pageId ++ [cix]) := by
+            intro pc hpc
+            have := hacsp.1 pc hpc
+            rw [hspid] at this; exact this
+          obtain ⟨parent2, hp2, hp2id, hp2pg, hp2c, hp2d, hp2prev, hp2pl, hp2none, hp2some⟩ :=
+            elideParentCounter_ok (storeElided sp) parent (countLeaves H (storeElided sp).page) clc hsp2 hcp (by
+              intro pclc pc h1 h2
+              rw [hpcl] at h2
+              rw [hpl]
+              have := hold pc h2
+              have := hacp.2.1 pclc h1
+              omega)
+          unfold elidePage
+          rw [hp2]
+          simp only
+          rw [hci]
+          simp only
+          rw [hrec]
+          simp only [Bool.false_eq_true, if_false]
+          have hc3 : CountersOK ({ parent2 with elided := PageLayout.elidedSet parent2.elided ci true } : StackPage Node) := hp2c
+          have hac3 : Acct ps (ids ++ [sp.pageId])
+              ({ parent2 with elided := PageLayout.elidedSet parent2.elided ci true } : StackPage Node) := by
+            refine ⟨?_, ?_, ?_⟩
+            rotate_left
+            rotate_left
+            · intro pc hpc
+              show restSum ps (ids ++ [sp.pageId]) parent2.pageId ≤ pc
+              rw [hp2id]
+              exact (hacp.mono hsub).2.2 pc (by rw [← hp2prev]; exact hpc)
+            · intro pc hpc
+              show parent2.pageLeaves.getD 0 + pc ≤ oldTot ps parent2.pageId
+              rw [hp2pl, hp2id]
+              exact hacp.1 pc (by rw [← hp2prev]; exact hpc)
+            · intro cur hcur
+              show restSum ps (ids ++ [sp.pageId]) parent2.pageId ≤ cur
+              rw [hp2id, hspid]
+              have hcur' : parent2.childrenLeaves.or parent2.prevChildrenLeaves = some cur := hcur
+              cases hpo : parent.childrenLeaves.or parent.prevChildrenLeaves with
+              | none =>
+                rw [hp2none hpo, hp2prev, hpo] at hcur'
+                cases hcur'
+              | some pclc =>
+                cases hpv : sp.prevChildrenLeaves with
+                | none => rw [hpcl, hpv] at hsp2; cases hsp2
+                | some pc =>
+                  rw [hp2some pclc pc hpo (by rw [hpcl]; exact hpv)] at hcur'
+                  rw [Option.some_or] at hcur'
+                  have hcur' := Option.some.inj hcur'
+                  rw [hpl] at hcur'
+                  have := hold pc hpv
+                  have := hacp.2.1 pclc hpo
+                  omega
+          split
+          · exact ⟨_, rfl, ⟨rfl, rfl, rfl, rfl, hrec.symm⟩, rfl, rfl, rfl,
+              pushUpdated_outs w _ sp _ rfl hid (storeElided_nodes sp) (by intro i hi; show ((storeElided sp).diff.setCleared).changed i = true; rw [PageDiff.changed_setCleared, storeElided_diff, hi]; rfl),
+              Or.inr ⟨_, rfl, hid⟩, Or.inr ⟨parent, rest, _, rfl, rfl, hp2id, hp2pg, hc3, hp2d, hac3⟩⟩
+          · exact ⟨_, rfl, ⟨rfl, rfl, rfl, rfl, hrec.symm⟩, rfl, rfl, rfl, fun o ho => Or.inl ho,
+              Or.inl rfl, Or.inr ⟨parent, rest, _, rfl, rfl, hp2id, hp2pg, hc3, hp2d, hac3⟩⟩
+        · obtain ⟨w', h1, h2, h3, h4, h5, ho, hsh, p', h6, h7, h8, h9, h10, h11⟩ := hkeep
+          exact ⟨w', h1, h2, h3, h4, h5, ho, hsh, Or.inr ⟨parent, rest, p', rfl, h6, h7, h8, h9, h10, h11⟩⟩
 
 /-! ## the reconstructor (`new_reconstructor`): every page is handed out as reconstructed; nothing may be kept -/
 
@@ -169,7 +240,8 @@ theorem handleElision_spec_r (w : Walker Node) (sp : StackPage Node) (below : Li
        (∃ parent rest parent', below = parent :: rest ∧ w'.stack = parent' :: rest ∧
           parent'.pageId = parent.pageId ∧ parent'.page = parent.page ∧ CountersOK parent' ∧
           parent'.diff = parent.diff ∧ parent'.prevChildrenLeaves = parent.prevChildrenLeaves ∧
-          parent'.pageLeaves = parent.pageLeaves ∧ clOf parent' ≤ clOf parent + countLeaves H sp.page + clOf sp)) := by
+          parent'.pageLeaves = parent.pageLeaves ∧ clOf parent' ≤ clOf parent + countLeaves H sp.page + clOf sp ∧
+          clOf parent ≤ clOf parent')) := by
   obtain ⟨hid, hcl, hpcl, hpl⟩ := storeElided_fields sp
   have hzsp := hz sp (by rw [hst]; simp)
   have hz' : (storeElided sp).prevChildrenLeaves = some 0 := by rw [hpcl]; exact hzsp.1
@@ -196,7 +268,7 @@ theorem handleElision_spec_r (w : Walker Node) (sp : StackPage Node) (below : Li
     · rw [if_pos hroot]
       rw [pushOut_rec _ _ (by exact hrec), pushReconstructed_zero _ _ hz', hid, hclof]
       exact ⟨_, (storeElided sp).page, _, rfl, ⟨rfl, rfl, rfl, rfl, rfl⟩, rfl, rfl, rfl, storeElided_nodes sp, hdiffs, rfl,
-        Or.inr ⟨parent, rest, parent, rfl, rfl, rfl, rfl, hcp, rfl, rfl, rfl, by omega⟩⟩
+        Or.inr ⟨parent, rest, parent, rfl, rfl, rfl, rfl, hcp, rfl, rfl, rfl, by omega, Nat.le_refl _⟩⟩
     · rw [if_neg hroot, or_eq_clOf _ hz', hclof]
       simp only
       have hsm := hsmall sp parent rest hst (by rw [← hid]; exact hroot)
@@ -215,55 +287,80 @@ theorem handleElision_spec_r (w : Walker Node) (sp : StackPage Node) (below : Li
       rw [pushReconstructed_zero _ _ hz', hid, hclof]
       refine ⟨_, (storeElided sp).page, _, rfl, ⟨rfl, rfl, rfl, rfl, rfl⟩, rfl, rfl, rfl, storeElided_nodes sp, hdiffs, rfl,
         Or.inr ⟨parent, rest, _, rfl, rfl, rfl, rfl,
-          (fun _ => by show parent.prevChildrenLeaves.isSome = true; rw [hzp.1]; rfl), rfl, rfl, rfl, ?_⟩⟩
-      show (some _ : Option Nat).getD 0 ≤ _
-      simp only [Option.getD_some]
-      omega
+          (fun _ => by show parent.prevChildrenLeaves.isSome = true; rw [hzp.1]; rfl), rfl, rfl, rfl, ?_, ?_⟩⟩
+      · show (some _ : Option Nat).getD 0 ≤ _
+        simp only [Option.getD_some]
+        omega
+      · show _ ≤ (some _ : Option Nat).getD 0
+        simp only [Option.getD_some]
+        omega
 
 /-- both modes: what `handle_elision_threshold` does to the walker, in the form the simulation needs -/
-theorem handleElision_sum (w : Walker Node) (sp : StackPage Node) (below : List (StackPage Node))
+theorem handleElision_sum (ps : PageSet Node) (ids : List PageId)
+    (w : Walker Node) (sp : StackPage Node) (below : List (StackPage Node))
     (hst : w.stack = sp :: below) (hc : ∀ x ∈ w.stack, CountersOK x) (hne : below ≠ [] → sp.pageId ≠ [])
     (hrc : w.reconstruction = true → w.inhibitElision = false ∧
       ∀ x ∈ w.stack, x.prevChildrenLeaves = some 0 ∧ x.pageLeaves = some 0)
-    (hsm : w.reconstruction = true → SmallTop H w) :
-    (∃ w', w.handleElision H = .ok w' ∧ Same w w' ∧ w'.position = w.position ∧ w'.root = w.root ∧
+    (hsm : w.reconstruction = true → SmallTop H w)
+    (hac : ∀ x ∈ w.stack, Acct ps ids x)
+    (hchild : ∀ parent rest, below = parent :: rest → ∃ ci, ci < 64 ∧ sp.pageId = parent.pageId ++ [ci])
+    (hnew : sp.pageId ∉ ids) :
+    ∃ w', w.handleElision H = .ok w' ∧ Same w w' ∧ w'.position = w.position ∧ w'.root = w.root ∧
       w'.childPageRoots = w.childPageRoots ∧
       (∀ o ∈ w'.outputPages, o ∈ w.outputPages ∨
         (o.pageId = sp.pageId ∧ o.page.nodes = sp.page.nodes ∧ o.isReconstructed = w.reconstruction ∧
           ∀ i, sp.diff.changed i = true → o.diff.changed i = true)) ∧
+      (w'.outputPages = w.outputPages ∨ ∃ o, w'.outputPages = w.outputPages ++ [o] ∧ o.pageId = sp.pageId) ∧
       ((below = [] ∧ w'.stack = []) ∨
        (∃ parent rest parent', below = parent :: rest ∧ w'.stack = parent' :: rest ∧
           parent'.pageId = parent.pageId ∧ parent'.page = parent.page ∧ CountersOK parent' ∧
-          parent'.diff = parent.diff ∧
+          parent'.diff = parent.diff ∧ Acct ps (ids ++ [sp.pageId]) parent' ∧
           (w.reconstruction = true → parent'.prevChildrenLeaves = parent.prevChildrenLeaves ∧
             parent'.pageLeaves = parent.pageLeaves ∧ clOf parent' ≤ clOf parent + countLeaves H sp.page + clOf sp))) ∧
       (w.reconstruction = true → ∃ o, w'.outputPages = w.outputPages ++ [o] ∧ o.pageId = sp.pageId ∧
-        o.page.nodes = sp.page.nodes)) ∨
-    (w.reconstruction = false ∧ w.handleElision H = .panic GUARD) := by
+        o.page.nodes = sp.page.nodes) := by
   cases hrec : w.reconstruction with
   | false =>
-    rcases handleElision_spec H w sp below hst hrec hc hne with ⟨w', h1, h2, h3, h4, h5, ho, hs'⟩ | hp
-    · refine Or.inl ⟨w', h1, h2, h3, h4, h5, ?_, ?_, fun h => by cases h⟩
-      · intro o ho'
-        rcases ho o ho' with h | ⟨pg, d, b, e1, e2, e3⟩
-        · exact Or.inl h
-        · right; rw [e2]; exact ⟨rfl, e1, rfl, e3⟩
-      · rcases hs' with h | ⟨parent, rest, parent', e1, e2, e3, e4, e5, e6⟩
-        · exact Or.inl h
-        · exact Or.inr ⟨parent, rest, parent', e1, e2, e3, e4, e5, e6, fun h => by cases h⟩
-    · exact Or.inr ⟨rfl, hp⟩
+    obtain ⟨w', h1, h2, h3, h4, h5, ho, hsh, hs'⟩ := handleElision_spec H ps ids w sp below hst hrec hc hne hac hchild hnew
+    refine ⟨w', h1, h2, h3, h4, h5, ?_, hsh, ?_, fun h => by cases h⟩
+    · intro o ho'
+      rcases ho o ho' with h | ⟨pg, d, b, e1, e2, e3⟩
+      · exact Or.inl h
+      · right; rw [e2]; exact ⟨rfl, e1, rfl, e3⟩
+    · rcases hs' with h | ⟨parent, rest, parent', e1, e2, e3, e4, e5, e6, e7⟩
+      · exact Or.inl h
+      · exact Or.inr ⟨parent, rest, parent', e1, e2, e3, e4, e5, e6, e7, fun h => by cases h⟩
   | true =>
     obtain ⟨hinh, hz⟩ := hrc hrec
     obtain ⟨w', pg, d, h1, h2, h3, h4, h5, hn, hd, ho, hs'⟩ := handleElision_spec_r H w sp below hst hrec hinh hz hne (hsm hrec)
-    refine Or.inl ⟨w', h1, h2, h3, h4, h5, ?_, ?_, fun _ => ⟨_, ho, rfl, hn⟩⟩
+    refine ⟨w', h1, h2, h3, h4, h5, ?_, Or.inr ⟨_, ho, rfl⟩, ?_, fun _ => ⟨_, ho, rfl, hn⟩⟩
     · intro o ho'
       rw [ho, List.mem_append, List.mem_singleton] at ho'
       rcases ho' with h | h
       · exact Or.inl h
       · right; rw [h]; exact ⟨rfl, hn, rfl, hd⟩
-    · rcases hs' with h | ⟨parent, rest, parent', e1, e2, e3, e4, e5, e6, e7, e8, e9⟩
+    · rcases hs' with h | ⟨parent, rest, parent', e1, e2, e3, e4, e5, e6, e7, e8, e9, e10⟩
       · exact Or.inl h
-      · exact Or.inr ⟨parent, rest, parent', e1, e2, e3, e4, e5, e6, fun _ => ⟨e7, e8, e9⟩⟩
+      · refine Or.inr ⟨parent, rest, parent', e1, e2, e3, e4, e5, e6, ?_, fun _ => ⟨e7, e8, e9⟩⟩
+        have hacp : Acct ps ids parent := hac parent (by rw [hst, e1]; simp)
+        have hzp := hz parent (by rw [hst, e1]; simp)
+        refine ⟨?_, ?_, ?_⟩
+        rotate_left
+        rotate_left
+        · intro pc hpc
+          rw [e3]
+          exact (hacp.mono (fun i hi => List.mem_append_left _ hi)).2.2 pc (by rw [← e7]; exact hpc)
+        · intro pc hpc
+          rw [e8, e3]
+          exact hacp.1 pc (by rw [← e7]; exact hpc)
+        · intro cur hcur
+          rw [e3]
+          have h0 : parent'.prevChildrenLeaves = some 0 := by rw [e7]; exact hzp.1
+          rw [or_eq_clOf parent' h0] at hcur
+          have hcur := Option.some.inj hcur
+          have h1 := hacp.2.1 (clOf parent) (or_eq_clOf parent hzp.1)
+          have h2 := restSum_mono ps ids (ids ++ [sp.pageId]) parent.pageId (fun i hi => List.mem_append_left _ hi)
+          omega
 
 /-! ## pages of neighbouring positions -/
 
@@ -272,9 +369,9 @@ variable (ps : PageSet Node)
 
 /-- `up`.  A reconstructor must find the page it leaves small enough to be elided (`hsm`). -/
 theorem sim_up {w : Walker Node} {a : TW Node} (h : Sim H ps w a) (hd : 6 * k0 w.parentPage < a.pos.length)
-    (hsm : w.reconstruction = true → dip a.pos = 1 → SmallTop H w) :
-    (∃ w', w.up H = .ok w' ∧ Sim H ps w' a.up ∧ Same w w' ∧ w'.childPageRoots = w.childPageRoots ∧ w'.root = w.root) ∨
-    (w.reconstruction = false ∧ w.up H = .panic GUARD) := by
+    (hsm : w.reconstruction = true → dip a.pos = 1 → SmallTop H w)
+    (hnew : dip a.pos = 1 → specPage a.pos ∉ a.log.map (·.1)) :
+    ∃ w', w.up H = .ok w' ∧ Sim H ps w' a.up ∧ Same w w' ∧ w'.childPageRoots = w.childPageRoots ∧ w'.root = w.root := by
   have hne := sim_pos_ne (w := w) hd
   obtain ⟨x, b, hxb⟩ : ∃ x b, a.pos = x ++ [b] := by
     rcases List.eq_nil_or_concat a.pos with e | ⟨l, y, e⟩
@@ -304,22 +401,33 @@ theorem sim_up {w : Walker Node} {a : TW Node} (h : Sim H ps w a) (hd : 6 * k0 w
     have hchain := h.chain
     rw [hst] at hchain
     simp only [List.map_cons] at hchain
-    have hsum := handleElision_sum H w top below hst h.counters
-        (by
-          intro hb
-          cases below with
-          | nil => exact absurd rfl hb
-          | cons q r => exact hchain.1)
+    have hchild : ∀ parent rest, below = parent :: rest → ∃ ci, ci < 64 ∧ top.pageId = parent.pageId ++ [ci] := by
+      intro parent rest hb
+      rw [hb] at hchain
+      simp only [List.map_cons] at hchain
+      have hne' : top.pageId ≠ [] := hchain.1
+      refine ⟨top.pageId.getLast hne', ?_, ?_⟩
+      · have hall : ∀ c ∈ top.pageId, c < 64 := by
+          rw [htop]; unfold specPage; exact sextetsOf_lt_64 _
+        exact hall _ (List.getLast_mem hne')
+      · rw [hchain.2.1]
+        exact (List.dropLast_concat_getLast hne').symm
+    have hacc : ∀ x ∈ w.stack, Acct ps (a.log.map (·.1)) x := h.acct
+    have hnew' : top.pageId ∉ a.log.map (·.1) := by rw [htop]; exact hnew h1
+    have hne2 : below ≠ [] → top.pageId ≠ [] := by
+      intro hb
+      cases below with
+      | nil => exact absurd rfl hb
+      | cons q r => exact hchain.1
+    have hsum0 := handleElision_sum H ps (a.log.map (·.1)) w top below hst h.counters hne2
         h.recon.rc (fun hr => hsm hr h1)
-    rcases hsum with ⟨w1, hw1, hsame, hpos1, hroot1, hcpr1, houts1, hstack1, hrec1⟩ | ⟨hnr, hp⟩
-    case inr =>
-      right
-      refine ⟨hnr, ?_⟩
-      rw [hp]
+    have hsum1 := hsum0 hacc
+    have hsum2 := hsum1 hchild hnew'
+    obtain ⟨w1, hw1, hsame, hpos1, hroot1, hcpr1, houts1, hshape1, hstack1, hrec1⟩ := hsum2
     rw [hw1]
     simp only
     rw [hpos1, hup]
-    refine Or.inl ⟨_, rfl, ?_, hsame, hcpr1, hroot1⟩
+    refine ⟨_, rfl, ?_, hsame, hcpr1, hroot1⟩
     have htoplen := chain_top_length w.parentPage top.pageId (below.map (·.pageId)) hchain
     have hPl : 6 * top.pageId.length = x.length := by
       rw [htop, hxb]; exact specPage_first_layer_length x b h6
@@ -340,7 +448,7 @@ theorem sim_up {w : Walker Node} {a : TW Node} (h : Sim H ps w a) (hd : 6 * k0 w
         obtain ⟨hinh, hz⟩ := h.recon.rc hr0
         refine ⟨by show w1.inhibitElision = false; rw [hsame.2.2.1]; exact hinh, ?_⟩
         intro sp hsp
-        rcases hstack1 with ⟨_, hs⟩ | ⟨parent, rest, parent', hb, hs, _, _, _, _, hx⟩
+        rcases hstack1 with ⟨_, hs⟩ | ⟨parent, rest, parent', hb, hs, _, _, _, _, _, hx⟩
         · have hsp' : sp ∈ w1.stack := hsp
           rw [hs] at hsp'; cases hsp'
         · have hsp' : sp ∈ w1.stack := hsp
@@ -361,7 +469,7 @@ theorem sim_up {w : Walker Node} {a : TW Node} (h : Sim H ps w a) (hd : 6 * k0 w
         have hol : outLeaves H o = countLeaves H top.page := by
           unfold outLeaves; exact countLeaves_nodes H top.page o.page hon
         rw [hol]
-        rcases hstack1 with ⟨hb, hs⟩ | ⟨parent, rest, parent', hb, hs, _, _, _, _, hx⟩
+        rcases hstack1 with ⟨hb, hs⟩ | ⟨parent, rest, parent', hb, hs, _, _, _, _, _, hx⟩
         · rw [hs]; simp
         · rw [hs]
           obtain ⟨_, _, e3⟩ := hx hr0
@@ -377,7 +485,88 @@ theorem sim_up {w : Walker Node} {a : TW Node} (h : Sim H ps w a) (hd : 6 * k0 w
         rw [h.recon.outIds hr0, hoid, htop]
     refine ⟨hp'wf, by rw [hp'a, hposup], by rw [hroot1, hstoreup]; exact h.root, ?_, ?_, ?_, ?_, ?_, hrecon,
       by show w1.childPageRoots.map _ = _; rw [hcpr1, hcprup]; exact h.cpr, ?_,
-      by show w1.preFix = false; rw [hsame.2.2.2.1]; exact h.nofix, ?_⟩
+      by show w1.preFix = false; rw [hsame.2.2.2.1]; exact h.nofix, ?_, ?_, ?_⟩
+    rotate_right
+    · -- every slot written is named: the slots of the page just left move to its output, or to "left without output"
+      have hids : a.up.log.map (·.1) = a.log.map (·.1) ++ [top.pageId] := by
+        rw [hlogup, htop]; simp
+      have holdids : ∀ o ∈ w.outputPages, o.pageId ∈ a.log.map (·.1) := by
+        intro o ho
+        obtain ⟨st, hmem, _⟩ := h.outs o ho
+        exact List.mem_map_of_mem (f := (·.1)) hmem
+      have hmono : ∀ o ∈ w.outputPages, o ∈ w1.outputPages := by
+        intro o ho
+        rcases hshape1 with e | ⟨o', e, _⟩
+        · rw [e]; exact ho
+        · rw [e]; exact List.mem_append_left _ ho
+      have hnewout : ∀ o ∈ w1.outputPages, o ∉ w.outputPages → o.pageId = top.pageId ∧
+          ∀ i, top.diff.changed i = true → o.diff.changed i = true := by
+        intro o ho hn
+        rcases houts1 o ho with hold | ⟨h1', _, _, h4⟩
+        · exact absurd hold hn
+        · exact ⟨h1', h4⟩
+      refine ⟨?_, ?_⟩
+      · show (w1.outputPages.map PageOut.pageId).Nodup
+        rcases hshape1 with e | ⟨o', e, hid'⟩
+        · rw [e]; exact h.named.1
+        · rw [e, List.map_append, List.nodup_append]
+          refine ⟨h.named.1, by simp, ?_⟩
+          intro i hi j hj eij
+          simp only [List.map_cons, List.map_nil, List.mem_singleton] at hj
+          obtain ⟨o, ho, rfl⟩ := List.mem_map.mp hi
+          rw [hj, hid'] at eij
+          exact hnew' (by rw [← eij]; exact holdids o ho)
+      · intro q hq hne
+        have hq' : q ∈ a.wl := by
+          have : a.up.wl = a.wl := by unfold TW.up; split <;> rfl
+          rw [this] at hq; exact hq
+        rw [hids]
+        rcases h.named.2 q hq' hne with ⟨sp, hsp, h1', h2'⟩ | ⟨o, ho, h1', h2'⟩ | ⟨h1', h2'⟩
+        · rw [hst] at hsp
+          rcases List.mem_cons.mp hsp with e | hsp'
+          · -- a slot of the page just left
+            by_cases hex : ∃ o ∈ w1.outputPages, o.pageId = top.pageId
+            · obtain ⟨o, ho, hoid⟩ := hex
+              have hon : o ∉ w.outputPages := by
+                intro hin
+                exact hnew' (by rw [← hoid]; exact holdids o hin)
+              right; left
+              refine ⟨o, ho, by rw [hoid, ← e]; exact h1', (hnewout o ho hon).2 _ (by rw [← e]; exact h2')⟩
+            · right; right
+              refine ⟨by rw [← h1', e]; simp, ?_⟩
+              intro o ho hoid
+              exact hex ⟨o, ho, by rw [hoid, ← h1', e]⟩
+          · left
+            rcases hstack1 with ⟨hb, _⟩ | ⟨parent, rest, parent', hb, hs, hpid, _, _, hpdf, _⟩
+            · rw [hb] at hsp'; cases hsp'
+            · rw [hb] at hsp'
+              show ∃ sp ∈ w1.stack, _
+              rw [hs]
+              rcases List.mem_cons.mp hsp' with e2 | hsp''
+              · exact ⟨parent', List.mem_cons_self .., by rw [hpid, ← e2]; exact h1', by rw [hpdf, ← e2]; exact h2'⟩
+              · exact ⟨sp, List.mem_cons_of_mem _ hsp'', h1', h2'⟩
+        · right; left
+          exact ⟨o, hmono o ho, h1', h2'⟩
+        · right; right
+          refine ⟨List.mem_append_left _ h1', ?_⟩
+          intro o ho hoid
+          by_cases hin : o ∈ w.outputPages
+          · exact h2' o hin hoid
+          · have := (hnewout o ho hin).1
+            exact hnew' (by rw [← this, hoid]; exact h1')
+    rotate_right
+    · -- the accounting: the page just left joins the log
+      intro sp hsp
+      have hsp' : sp ∈ w1.stack := hsp
+      have hids : a.up.log.map (·.1) = a.log.map (·.1) ++ [top.pageId] := by
+        rw [hlogup, htop]; simp
+      rw [hids]
+      rcases hstack1 with ⟨_, hs⟩ | ⟨parent, rest, parent', hb, hs, _, _, _, _, hacp, _⟩
+      · rw [hs] at hsp'; cases hsp'
+      · rw [hs] at hsp'
+        rcases List.mem_cons.mp hsp' with e | hsp''
+        · rw [e]; exact hacp
+        · exact (h.acct sp (by rw [hst, hb]; simp [hsp''])).mono (fun i hi => List.mem_append_left _ hi)
     · -- empty iff at the top layer
       rw [hsame.1, hposup, hxl]
       rcases hstack1 with ⟨hb, hs⟩ | ⟨parent, rest, parent', hb, hs, _⟩
@@ -451,14 +640,15 @@ theorem sim_up {w : Walker Node} {a : TW Node} (h : Sim H ps w a) (hd : 6 * k0 w
     rw [hdip, if_neg h1]
     simp only
     rw [hup]
-    refine Or.inl ⟨_, rfl, ?_, Same.rfl' _, rfl, rfl⟩
+    refine ⟨_, rfl, ?_, Same.rfl' _, rfl, rfl⟩
     have h6 : x.length % 6 ≠ 0 := by
       rw [hxb, dip_snoc] at h1; omega
     have h6k : (6 * k0 w.parentPage) % 6 = 0 := by omega
     have hposup' : a.up.pos = x := by rw [hposup, hxl]
     have hlogup : a.up.log = a.log := by unfold TW.up; rw [if_neg h1]
     refine ⟨hp'wf, by rw [hp'a, hposup], by rw [hstoreup]; exact h.root, ?_, ?_, h.chain, ?_, h.counters,
-      h.recon.cast H rfl rfl rfl rfl hlogup, by rw [hcprup]; exact h.cpr, by rw [hlogup]; exact h.outs, h.nofix, h.diffs⟩
+      h.recon.cast H rfl rfl rfl rfl hlogup, by rw [hcprup]; exact h.cpr, by rw [hlogup]; exact h.outs, h.nofix, h.diffs,
+      h.acct.cast rfl hlogup, h.named.cast rfl rfl (by unfold TW.up; split <;> rfl) hlogup⟩
     · show w.stack = [] ↔ _
       rw [hst, hposup']
       simp only [false_iff, reduceCtorEq]
@@ -517,7 +707,8 @@ theorem fresh_page_counters (P : PageId) (pg : Page Node) :
 /-- one bit of `down` into fresh territory -/
 theorem sim_downBit (hfresh : ∀ P, (ps.fresh P).length = 126) {w : Walker Node} {a : TW Node} (h : Sim H ps w a)
     (b : Bool) (hl : a.pos.length < 256)
-    (hscope : (a.pos = [] ∧ w.parentPage = none) ∨ 6 * k0 w.parentPage < a.pos.length) :
+    (hscope : (a.pos = [] ∧ w.parentPage = none) ∨ 6 * k0 w.parentPage < a.pos.length)
+    (hz : a.pos.length % 6 = 0 → fullSum ps (specPage (a.pos ++ [b])) = 0) :
     ∃ w', w.downBit ps true b = .ok w' ∧ Sim H ps w' (a.downBit (cfgOf H ps w.parentPage) true b) ∧ Same w w' ∧
       w'.childPageRoots = w.childPageRoots ∧ w'.root = w.root := by
   have hdep := pos_depth_pos h.wf h.pos
@@ -542,7 +733,17 @@ theorem sim_downBit (hfresh : ∀ P, (ps.fresh P).length = 126) {w : Walker Node
       rw [if_pos ⟨by rw [hnil]; rfl, rfl⟩]
     refine ⟨hp'wf, by rw [hp'a, hposd], ?_, ?_, ?_, ?_, ?_, ?_,
       reconInv_push H h.recon _ ⟨rfl, rfl⟩ rfl rfl rfl rfl rfl (hlogd _), by rw [hcprd]; exact h.cpr,
-      by rw [hlogd]; exact h.outs, h.nofix, ?_⟩
+      by rw [hlogd]; exact h.outs, h.nofix, ?_, ?_,
+      h.named.push (fun sp hsp => List.mem_cons_of_mem _ hsp) rfl (tw_downBit_wl _ _ _ _) (hlogd _)⟩
+    rotate_right
+    · intro sp hsp'
+      have hsp'' : sp ∈ (StackPage.new [] (ps.freshPage []) PageDiff.empty freshOrigin :: w.stack) := hsp'
+      rw [hstk] at hsp''
+      simp only [List.mem_singleton] at hsp''
+      rw [hsp'']
+      have hz0 := hz (by rw [hnil]; rfl)
+      rw [hsp] at hz0
+      exact acct_fresh ps _ [] _ hz0
     · rw [hstore]; unfold havoc; rw [if_neg (by simp)]; exact h.root
     · show (_ :: w.stack) = [] ↔ _
       rw [hposd]; simp [hpar, k0]
@@ -600,7 +801,20 @@ theorem sim_downBit (hfresh : ∀ P, (ps.fresh P).length = 126) {w : Walker Node
       refine ⟨hp'wf, by rw [hp'a, hposd], ?_, ?_, ?_, ?_, ?_, ?_,
         reconInv_push H h.recon (StackPage.new (P ++ [c]) (ps.freshPage (P ++ [c])) PageDiff.empty freshOrigin)
           ⟨rfl, rfl⟩ rfl rfl rfl rfl (by rw [hst]) (hlogd _), by rw [hcprd]; exact h.cpr,
-      by rw [hlogd]; exact h.outs, h.nofix, ?_⟩
+      by rw [hlogd]; exact h.outs, h.nofix, ?_, ?_,
+      h.named.push (fun sp hsp => by
+        show sp ∈ (_ :: top :: rest)
+        rw [← hst]; exact List.mem_cons_of_mem _ hsp) rfl (tw_downBit_wl _ _ _ _) (hlogd _)⟩
+      rotate_right
+      · intro sp hsp'
+        have hsp'' : sp ∈ (StackPage.new (P ++ [c]) (ps.freshPage (P ++ [c])) PageDiff.empty freshOrigin :: top :: rest) := hsp'
+        rw [hlogd]
+        rcases List.mem_cons.mp hsp'' with e | hsp3
+        · rw [e]
+          have hz0 := hz h6
+          rw [← hPc] at hz0
+          exact acct_fresh ps _ _ _ hz0
+        · exact h.acct sp (by rw [hst]; exact hsp3)
       · rw [hstore]; unfold havoc; rw [if_neg (by simp)]; exact h.root
       · show (StackPage.new (P ++ [c]) (ps.freshPage (P ++ [c])) PageDiff.empty freshOrigin :: top :: rest) = [] ↔
           (a.downBit (cfgOf H ps w.parentPage) true b).pos.length ≤ 6 * k0 w.parentPage
@@ -663,7 +877,8 @@ theorem sim_downBit (hfresh : ∀ P, (ps.fresh P).length = 126) {w : Walker Node
         rw [if_neg (by intro hh; exact h6 hh.1)]
       refine ⟨hp'wf, by rw [hp'a, hposd], by rw [hstore]; exact h.root, ?_, ?_, h.chain, ?_, h.counters,
         h.recon.cast H rfl rfl rfl rfl (hlogd _),
-        by rw [hcprd]; exact h.cpr, by rw [hlogd]; exact h.outs, h.nofix, h.diffs⟩
+        by rw [hcprd]; exact h.cpr, by rw [hlogd]; exact h.outs, h.nofix, h.diffs, h.acct.cast rfl (hlogd _),
+        h.named.cast rfl rfl (tw_downBit_wl _ _ _ _) (hlogd _)⟩
       · show w.stack = [] ↔ _
         rw [hst, hposd]
         simp only [List.length_append, List.length_singleton, false_iff, reduceCtorEq]
